@@ -50,6 +50,8 @@ def main(tier):
         tried = sum(x["proofsTried"] for x in srecs)
         for ln in found.get("complete", []):
             classes.setdefault("incomplete:readonly-store", []).append(srecs[ln - 1])
+        for ln in found.get("sound", []):
+            classes.setdefault("unsound:readonly-store", []).append(srecs[ln - 1])
         what = {"unsound": "VerifyProof accepted a false statement", "incomplete": "an honest proof of a true statement was rejected",
                 "panic": "VerifyProof panicked"}
         for key, recs in sorted(classes.items()):
